@@ -11,7 +11,9 @@ def check(ctx):
         "scope; LocalParentGuard::drop and LocalSpan::drop close their scope/span on every path from inner = Some, and capture_local_spans / LocalCollector::new open a scope on every path; R3 "
         "SpanQueue::finish_span restores next_parent_id from the finished span's stored parent, and SpanLine::{finish_span, "
         "with_properties, collect} act only for a handle of their own epoch; R4 the six LocalSpanStack operations reach "
-        "SpanLine only across span_lines.last_mut() = Some.")
+        "SpanLine only across span_lines.last_mut() = Some; R2 also: the handle that closes a scope is moved out of its guard "
+        "only in the guard's Drop / consuming collect (a panicking property closure unwinds through a full guard); R5 local "
+        "properties and events are recorded as new queue entries under next_parent_id (never appended to an earlier entry).")
     ctx.not_decided = ("the frame condition for arbitrary nesting depth (it follows from the stack discipline R2 pins down, "
                        "but equality of 'context before' and 'context after' is a state property).")
     facts = ctx.facts("E")
@@ -19,7 +21,12 @@ def check(ctx):
     witness.run(ctx, "R1", ["send_guard", "send_local_span", "send_local_collector", "sync_guard"])
     scopes.rule_scope_pairing(ctx, facts, "R2")
     scopes.rule_scope_always_opened(ctx, facts, "R2")
+    scopes.rule_handle_stays_in_guard(ctx, facts, "R2")
     provrules.rule_scope_parent(ctx, facts, "R3")
     scopes.rule_epochs(ctx, facts, "R3")
     scopes.rule_epoch_representation(ctx, facts, "R3")
     scopes.rule_inert_without_scope(ctx, facts, "R4")
+    # "where subsequent local properties and events attach": every local attachment is a new queue entry under the
+    # current parent, never appended to an entry recorded earlier (which may belong to a scope that has ended)
+    provrules.rule_attachments_are_new_entries(ctx, facts, "R5")
+    provrules.rule_pseudo_spans(ctx, facts, "R5")
